@@ -540,6 +540,33 @@ func (p *isoProgram) exec(route int, bs match.Bindings, props core.StepProps) (r
 	return res
 }
 
+var isoNoAssignProg *isoProgram
+
+// isoNoAssignIntact: the source contains no '=', '++', '--' or 'delete', yet it sorts, reverses, extends and redefines
+// what it reaches through the environment; the caller's bindings and props must be what they were
+func isoNoAssignIntact(route int) bool {
+	if isoNoAssignProg == nil {
+		p, err := isoCompileSource(`Object.assign(_.bindings, {top: "hacked"}); _.bindings.box.l.reverse(); _.bindings.box.l.push("more"); _.bindings.q.sort(); Object.defineProperty(_.bindings.box, "k", {value: "hacked", enumerable: true, writable: true, configurable: true}); Object.assign(_.props, {mid: "hacked"}); return _.bindings;`)
+		if err != nil {
+			return true
+		}
+		isoNoAssignProg = p
+	}
+	bs := map[string]interface{}{"top": "t", "q": []interface{}{3.0, 1.0, 2.0},
+		"box": map[string]interface{}{"k": "x", "l": []interface{}{"y", "z"}}}
+	props := map[string]interface{}{"mid": "m1"}
+	isoNoAssignProg.exec(route, match.Bindings(bs), core.StepProps(props))
+	box, _ := bs["box"].(map[string]interface{})
+	q, _ := bs["q"].([]interface{})
+	if box == nil || box["k"] != "x" || bs["top"] != "t" || props["mid"] != "m1" || len(q) != 3 || q[0] != 3.0 {
+		return false
+	}
+	if l, _ := box["l"].([]interface{}); len(l) != 2 || l[0] != "y" {
+		return false
+	}
+	return true
+}
+
 var isoUnwritableProg *isoProgram
 
 // isoUnwritableIntact: a script that writes into every part of bindings which cannot go through JSON; the caller's
@@ -700,6 +727,11 @@ func runIsoCase(o *Out, c *isoCase) {
 	alone := probe.observe(c.Route, isoCopy(c.Bs), isoCopy(c.Props))
 	var polObs, probeObs []*isoObs
 	stable := true
+	if !isoNoAssignIntact(c.Route) {
+		// a script without a single assignment operator that changes what it was given through built-in methods
+		stable = false
+		o.count("caller-changed-by-method-calls")
+	}
 	if !isoUnwritableIntact(c.Route) {
 		// bindings that hold a value JSON cannot write (NaN, Inf): whatever Exec makes of them (it fails), the script
 		// must not have been handed the caller's own objects
